@@ -358,3 +358,22 @@ void h_inPolyGen(void)
     VERIF_CANARY;
 }
 #endif
+
+/* ------------------------------------------------------------ linesegment::LineSegment::Intersect (libvpsc/linesegment.h), used by Rectangle::lineIntersections */
+#if defined(JOB_ls_intersect)
+int w_ls_intersect(double x1, double y1, double x2, double y2, double x3, double y3, double x4, double y4);
+static _Bool in01(long n, long d) { return d > 0 ? (0 <= n && n <= d) : (0 >= n && n >= d); }
+void h_ls_intersect(void)
+{
+  int c[8];
+  for (int k = 0; k < 8; ++k) __CPROVER_assume(c[k] >= 0 && c[k] <= LS_GRID);
+  __CPROVER_assume(c[0] == LS_X1);
+  int r = w_ls_intersect(c[0], c[1], c[2], c[3], c[4], c[5], c[6], c[7]);
+  long dx1 = c[2] - c[0], dy1 = c[3] - c[1], dx2 = c[6] - c[4], dy2 = c[7] - c[5];
+  long denom = dy2 * dx1 - dy1 * dx2, na = dx2 * (c[1] - c[5]) - dy2 * (c[0] - c[4]), nb = dx1 * (c[1] - c[5]) - dy1 * (c[0] - c[4]);
+  /* PARALLEL 0, COINCIDENT 1, NOT_INTERSECTING 2, INTERSECTING 3 */
+  int want = denom == 0 ? ((na == 0 && nb == 0) ? 1 : 0) : ((in01(na, denom) && in01(nb, denom)) ? 3 : 2);
+  __CPROVER_assert(r == want, "SPEC LineSegment::Intersect classifies as exact integer arithmetic does (zero-length segments included)");
+  VERIF_CANARY;
+}
+#endif
